@@ -10,7 +10,7 @@ import nodecheck
 from nodecheck import Obs, kv, parse_msg, parse_cfg
 
 PROP = "C06"
-MODULES = ["DV.Properties.C06", "DV.Properties.C06Hist", "DV.Properties.C06Cer", "DV.Properties.ConfigTie"]
+MODULES = ["DV.Properties.C06", "DV.Properties.C06Hist", "DV.Properties.C06Cer", "DV.Properties.ConfigTie", "DV.Properties.C06Send"]
 KEEP = {"OUT": None, "APP": None, "CONN": ["state", "dir", "live"], "PEER": ["reason"], "CRASH": None}
 T0 = 1700000000
 
